@@ -1,4 +1,5 @@
 import NgVerif.Proofs.CsegMain
+import NgVerif.Proofs.CsegList
 /-
   C02 — compressed_segmentation output conforms to the Neuroglancer format.
 
@@ -21,6 +22,16 @@ theorem spec_decoder_recovers_every_voxel
     (c z y x : Nat) (hc : c < s.c) (hz : z < s.z) (hy : y < s.y) (hx : x < s.x) :
     specVoxel itemsize s bk file c z y x = some (vox s d c z y x) ∧ file.length % 4 = 0 :=
   file_decodes itemsize hi s bk d hbx hby hbz hvals file h c z y x hc hz hy hx
+
+/-- The same at the level of whole arrays: decoding every voxel in C order (c, z, y, x) gives back
+    exactly the array that was encoded. -/
+theorem spec_decoder_recovers_the_array
+    (itemsize : Nat) (hi : itemsize = 4 ∨ itemsize = 8) (s : Shape) (bk : Blk3) (d : List Nat)
+    (hbx : 0 < bk.bx) (hby : 0 < bk.by') (hbz : 0 < bk.bz)
+    (hvals : ∀ v ∈ d, v < 2 ^ (8 * itemsize)) (hd : d.length = s.c * s.z * s.y * s.x)
+    (file : Bytes) (h : encode itemsize s bk d = some file) :
+    specDecode itemsize s bk file = some d :=
+  specDecode_encode itemsize hi s bk d hbx hby hbz hvals hd file h
 
 /-- non-vacuity: a 2-channel 3×2×3 chunk with a non-cubic block is encoded (the hypotheses of the
     theorem are satisfiable, including a block that needs padding and a shared look-up table) -/
